@@ -105,4 +105,10 @@ CLAIMS = {
         "note": "Trusted: Lean kernel; OS flock semantics; schedules sampled. Observation (not a violation of the stated property): the documented TOCTOU in Store::open lets a creation race end with no winner and a directory that holds only .lock.",
         "technique": "Lean 4 theorems (invariant over all interleavings of the lock protocol) + thread/process races, directory fingerprints and strace on the real code",
     },
+    "C17": {
+        "text": "checkPlacement (Lean) decides, from the independently decoded pre-image and the ordered I/O events of an operation, that nothing the previous state references is overwritten, truncated or unlinked before the meta page is written. T17.1/T17.1b: an accepted ln / bbn page write targets a page beyond the old frontier or one the old state does not use as node / overflow / free-list page; T17.2 any hash-table write before the switch-over is rejected; T17.3 any unlink is rejected. This is the page-write clause of the hypothesis of the crash theorem (C04 EvPre) decided on real traces. The monitor runs on the pre-image + trace of every operation of generated histories.",
+        "design_ref": "§4 C03/C04/C17",
+        "note": "Trusted: Lean kernel; decoders hand-written (validated by C16's run); the hook's completeness (every mutating call site instrumented); the formal link 'monitor acceptance implies EvPre of the abstract disk model' is stated in prose, not yet as a Lean theorem.",
+        "technique": "Lean 4 theorems (soundness of the placement monitor) + the monitor evaluated by the Lean driver on real pre-images and real I/O traces",
+    },
 }
